@@ -218,6 +218,15 @@ class Gen:
                 p = br.get('parse_with', ''); w = bw.get('write_with', '')
                 md = re.fullmatch(r'binrw_parse_duration::<(\w+), (\d+), _>', p); mw = re.fullmatch(r'binrw_write_duration::<(\w+), (\d+), _>', w)
                 mt = re.fullmatch(r'binrw_parse_codepage_string::<(\d+), _>', p); mtw = re.fullmatch(r'binrw_write_codepage_string::<(\d+), _>', w)
+                mtz = re.fullmatch(r'binrw_write_codepage_string_nul_terminated::<(\d+), _>', w)
+                zterm = False
+                if mtz and not mtw:
+                    # the NUL-terminated writer: args are (align,) only; normalise to the plain writer's argument shape
+                    mtw = mtz; zterm = True
+                    wa0 = bw.get('args')
+                    if wa0 is None: pass
+                    elif re.fullmatch(r'\d+', wa0): bw = dict(bw); bw['args'] = 'false, ' + wa0
+                    else: raise TranslateError(where + ' terminated text args %r' % wa0)
                 if md or mw:
                     if not (md and mw) or md.groups() != mw.groups() or ty != 'Duration' or not known(br, ['parse_with']) or not known(bw, ['write_with']):
                         raise TranslateError(where + ' duration attributes differ between reader and writer')
@@ -229,11 +238,12 @@ class Gen:
                     if ra is None and wa is None: pass
                     elif ra == 'true' and wa == 'true, 0': raw = True
                     else: raise TranslateError(where + ' text args %r %r' % (ra, wa))
-                    out.append((fname, ('text', int(mt.group(1)), raw)))
+                    if zterm and raw: raise TranslateError(where + ' terminated raw text')
+                    out.append((fname, ('text', int(mt.group(1)), raw, zterm)))
                 elif p == 'binrw_parse_codepage_string_until_eof':
                     ma = re.fullmatch(r'false, (\d+)', bw.get('args', ''))
                     if not mtw or not ma or ty != 'String' or 'args' in br: raise TranslateError(where + ' until_eof text shape')
-                    tail = ('texteof', int(mtw.group(1)), int(ma.group(1)), fname)
+                    tail = ('texteof', int(mtw.group(1)), int(ma.group(1)), fname, zterm)
                 elif p == 'binrw_parse_spclose_strip_reserved_bits':
                     if w or ty != 'u16': raise TranslateError(where + ' spclose shape')
                     fb = norm_ws(find_block(s.files[[f for f in s.files if f.endswith('obh.rs')][0]], r'fn binrw_parse_spclose_strip_reserved_bits\(\) -> BinResult<u16>\s*\{'))
@@ -306,7 +316,7 @@ def coq_atom(a):
     if k == 'bool': return 'ABool'
     if k == 'char8': return 'AChar8'
     if k == 'count': return 'ACount %d %s' % (a[1], opt(a[2]))
-    if k == 'text': return 'AText %d' % a[1]
+    if k == 'text': return 'AText %d %s' % (a[1], 'true' if a[3] else 'false')
     if k == 'dur': return 'ADur %d %d' % (a[1], a[2])
     if k == 'custom': return 'ACustom %s' % a[1]
     raise TranslateError('atom ' + str(a))
@@ -323,7 +333,7 @@ def rust_atom(a):
     if k == 'bool': return 'Atom::Bool'
     if k == 'char8': return 'Atom::Char8'
     if k == 'count': return 'Atom::Count { w: %d, cap: %s }' % (a[1], 'None' if a[2] is None else 'Some(%d)' % a[2])
-    if k == 'text': return 'Atom::Text { n: %d, raw: %s }' % (a[1], 'true' if a[2] else 'false')
+    if k == 'text': return 'Atom::Text { n: %d, raw: %s, z: %s }' % (a[1], 'true' if a[2] else 'false', 'true' if a[3] else 'false')
     if k == 'dur': return 'Atom::Dur { w: %d, scale: %d }' % (a[1], a[2])
     if k == 'custom': return 'Atom::Custom(Custom::%s, %d)' % (a[1][1:], a[2])
     raise TranslateError('atom ' + str(a))
@@ -350,7 +360,7 @@ def generate(repo):
         elif tail[0] == 'vec':
             ct = 'TVec %s %d %d' % (coq_fields(tail[1]), tail[5][0], tail[5][1]); rt = 'Tail::Vec { elt: %s, padm: %d, padk: %d }' % (rust_fields(tail[1]), tail[5][0], tail[5][1])
         elif tail[0] == 'words': ct = 'TWords'; rt = 'Tail::Words'
-        elif tail[0] == 'texteof': ct = 'TTextEof %d %d' % (tail[1], tail[2]); rt = 'Tail::TextEof { max: %d, align: %d }' % (tail[1], tail[2])
+        elif tail[0] == 'texteof': ct = 'TTextEof %d %d %s' % (tail[1], tail[2], 'true' if tail[4] else 'false'); rt = 'Tail::TextEof { max: %d, align: %d, z: %s }' % (tail[1], tail[2], 'true' if tail[4] else 'false')
         coq.append('Definition lay_%s : layout := {| fixed := %s;\n    ltail := %s |}.' % (st, coq_fields(fs), ct))
         table.append('(%s, "%s"%%string, KLayout lay_%s)' % (magic, var, st))
         rtable.append('Kind { magic: %s, name: "%s", fixed: %s, tail: %s }' % (magic, var, rust_fields(fs), rt))
